@@ -51,8 +51,8 @@ theorem refShr_getD (v : Bits) (k j : Nat) :
 
 /-! ## shifts as coded -/
 
-theorem shl_eq (v : Bits) (k : Nat) : shl v k = .ok (if k = 0 then v else Ref.shl v k) := by
-  unfold shl
+theorem shlCode_eq (v : Bits) (k : Nat) : shlCode v k = .ok (if k = 0 then v else Ref.shl v k) := by
+  unfold shlCode
   by_cases h0 : k = 0 ∨ v.length = 0
   · rw [if_pos h0]
     by_cases hk : k = 0
@@ -92,8 +92,8 @@ theorem shl_eq (v : Bits) (k : Nat) : shl v k = .ok (if k = 0 then v else Ref.sh
       · rw [if_pos (by omega)]
       · rw [if_neg (by omega), getD_ge v (j - k) (by omega)]
 
-theorem shlAssign_eq (v : Bits) (k : Nat) : shlAssign v k = .ok (if k = 0 then v else Ref.shl v k) := by
-  unfold shlAssign
+theorem shlAssignCode_eq (v : Bits) (k : Nat) : shlAssignCode v k = .ok (if k = 0 then v else Ref.shl v k) := by
+  unfold shlAssignCode
   by_cases h0 : k = 0 ∨ v.length = 0
   · rw [if_pos h0]
     by_cases hk : k = 0
@@ -134,8 +134,8 @@ theorem shlAssign_eq (v : Bits) (k : Nat) : shlAssign v k = .ok (if k = 0 then v
     · rw [if_pos (by omega), if_pos hjk]
     · rw [if_neg (by omega), if_neg hjk, h3 j, if_pos (by omega)]
 
-theorem shr_eq (v : Bits) (k : Nat) : shr v k = .ok (Ref.shr v k) := by
-  unfold shr
+theorem shrCode_eq (v : Bits) (k : Nat) : shrCode v k = .ok (Ref.shr v k) := by
+  unfold shrCode
   by_cases h0 : k = 0 ∨ v.length = 0
   · rw [if_pos h0]
     congr 1
@@ -170,8 +170,8 @@ theorem shr_eq (v : Bits) (k : Nat) : shr v k = .ok (Ref.shr v k) := by
     intro j _
     rw [h3 j, refShr_getD, Nat.zero_add]
 
-theorem shrAssign_eq (v : Bits) (k : Nat) : shrAssign v k = .ok (Ref.shr v k) := by
-  unfold shrAssign
+theorem shrAssignCode_eq (v : Bits) (k : Nat) : shrAssignCode v k = .ok (Ref.shr v k) := by
+  unfold shrAssignCode
   by_cases h0 : k = 0 ∨ v.length = 0
   · rw [if_pos h0]
     congr 1
@@ -214,6 +214,24 @@ theorem shrAssign_eq (v : Bits) (k : Nat) : shrAssign v k = .ok (Ref.shr v k) :=
     · rw [if_pos hjk, if_neg (by split <;> omega), h3 j, Nat.zero_add, if_pos hjk]
     · rw [if_neg hjk, if_pos (by split <;> omega)]
 
+/-! ### the same inside the modelled range -/
+
+theorem inRange_ok {α : Type} {k : Nat} (h : k < posLimit) (body : Res α) : inRange k body = body := by
+  unfold inRange; rw [if_pos h]
+
+theorem shl_eq (v : Bits) (k : Nat) (hk : k < posLimit) : shl v k = .ok (if k = 0 then v else Ref.shl v k) := by
+  unfold shl; rw [inRange_ok hk, shlCode_eq]
+
+theorem shlAssign_eq (v : Bits) (k : Nat) (hk : k < posLimit) :
+    shlAssign v k = .ok (if k = 0 then v else Ref.shl v k) := by
+  unfold shlAssign; rw [inRange_ok hk, shlAssignCode_eq]
+
+theorem shr_eq (v : Bits) (k : Nat) (hk : k < posLimit) : shr v k = .ok (Ref.shr v k) := by
+  unfold shr; rw [inRange_ok hk, shrCode_eq]
+
+theorem shrAssign_eq (v : Bits) (k : Nat) (hk : k < posLimit) : shrAssign v k = .ok (Ref.shr v k) := by
+  unfold shrAssign; rw [inRange_ok hk, shrAssignCode_eq]
+
 /-! ## positional modifiers -/
 
 theorem grow_eq (v : Bits) (pos : Nat) :
@@ -244,38 +262,55 @@ theorem grow_getD (v : Bits) (pos j : Nat) : (Ref.grow v pos).getD j false = v.g
   · exact resize_getD v _ j (by have := growSize_gt pos; omega)
   · rfl
 
-theorem set_eq (v : Bits) (pos : Nat) (b : Bool) : set v pos b = .ok (Ref.set v pos b) := by
-  unfold set Ref.set
+theorem setCode_eq (v : Bits) (pos : Nat) (b : Bool) : setCode v pos b = .ok (Ref.set v pos b) := by
+  unfold setCode Ref.set
   simp only [grow_eq]
   rw [wr_ok (grow_length_gt v pos)]
 
-theorem reset_eq (v : Bits) (pos : Nat) : reset v pos = .ok (Ref.reset v pos) := by
-  unfold reset Ref.reset
+theorem resetCode_eq (v : Bits) (pos : Nat) : resetCode v pos = .ok (Ref.reset v pos) := by
+  unfold resetCode Ref.reset
   simp only [grow_eq]
   rw [wr_ok (grow_length_gt v pos)]
 
-theorem flip_eq (v : Bits) (pos : Nat) : flip v pos = .ok (Ref.flip v pos) := by
-  unfold flip Ref.flip Ref.bit
+theorem flipCode_eq (v : Bits) (pos : Nat) : flipCode v pos = .ok (Ref.flip v pos) := by
+  unfold flipCode Ref.flip Ref.bit
   simp only [grow_eq]
   rw [rd_ok (grow_length_gt v pos)]
   simp only
   rw [wr_ok (grow_length_gt v pos), grow_getD]
 
-theorem idxAssign_eq (v : Bits) (pos : Nat) (b : Bool) : idxAssign v pos b = .ok (Ref.set v pos b) := by
-  unfold idxAssign idxGrow Ref.set
+theorem idxAssignCode_eq (v : Bits) (pos : Nat) (b : Bool) : idxAssignCode v pos b = .ok (Ref.set v pos b) := by
+  unfold idxAssignCode idxGrow Ref.set
   simp only [grow_eq]
   rw [if_pos (grow_length_gt v pos)]
   simp only
   rw [wr_ok (grow_length_gt v pos)]
 
-theorem idxRead_eq (v : Bits) (pos : Nat) : idxRead v pos = .ok (Ref.grow v pos, Ref.bit v pos) := by
-  unfold idxRead idxGrow Ref.bit
+theorem idxReadCode_eq (v : Bits) (pos : Nat) : idxReadCode v pos = .ok (Ref.grow v pos, Ref.bit v pos) := by
+  unfold idxReadCode idxGrow Ref.bit
   simp only [grow_eq]
   rw [if_pos (grow_length_gt v pos)]
   simp only
   rw [rd_ok (grow_length_gt v pos)]
   simp only
   rw [grow_getD]
+
+theorem set_eq (v : Bits) (pos : Nat) (b : Bool) (h : pos < posLimit) : set v pos b = .ok (Ref.set v pos b) := by
+  unfold set; rw [inRange_ok h, setCode_eq]
+
+theorem reset_eq (v : Bits) (pos : Nat) (h : pos < posLimit) : reset v pos = .ok (Ref.reset v pos) := by
+  unfold reset; rw [inRange_ok h, resetCode_eq]
+
+theorem flip_eq (v : Bits) (pos : Nat) (h : pos < posLimit) : flip v pos = .ok (Ref.flip v pos) := by
+  unfold flip; rw [inRange_ok h, flipCode_eq]
+
+theorem idxAssign_eq (v : Bits) (pos : Nat) (b : Bool) (h : pos < posLimit) :
+    idxAssign v pos b = .ok (Ref.set v pos b) := by
+  unfold idxAssign; rw [inRange_ok h, idxAssignCode_eq]
+
+theorem idxRead_eq (v : Bits) (pos : Nat) (h : pos < posLimit) :
+    idxRead v pos = .ok (Ref.grow v pos, Ref.bit v pos) := by
+  unfold idxRead; rw [inRange_ok h, idxReadCode_eq]
 
 theorem setAll_eq (v : Bits) : setAll v = .ok (Ref.setAll v) := by
   unfold setAll Ref.setAll
@@ -329,13 +364,13 @@ theorem getD_set_gen {α : Type} (v : List α) (i j : Nat) (b d : α) (h : i < v
   · simp only [List.getD_eq_getElem?_getD, if_neg hj]
     rw [List.getElem?_set_ne (Ne.symm hj)]
 
-theorem toStr_eq (v : Bits) : toStr v = .ok (Ref.toString v) := by
-  unfold toStr
+theorem toStrWith_eq (v : Bits) (z o : Char) : toStrWith v z o = .ok (Ref.toStringWith v z o) := by
+  unfold toStrWith
   obtain ⟨s, h1, h2, h3⟩ := forUp_inv
     (fun i (s : List Char) => s.length = v.length ∧
-      ∀ j, j < v.length → s.getD j '0' =
-        if v.length - i ≤ j ∧ v.getD (v.length - 1 - j) false = true then '1' else '0')
-    (strBody v) v.length 0 (List.replicate v.length '0')
+      ∀ j, j < v.length → s.getD j z =
+        if v.length - i ≤ j ∧ v.getD (v.length - 1 - j) false = true then o else z)
+    (strBody o v) v.length 0 (List.replicate v.length z)
     ⟨by simp, by intro j hj; rw [if_neg (by omega)]; simp [List.getD_eq_getElem?_getD, hj]⟩
     (by
       intro i s _ hi ⟨hl, hb⟩
@@ -372,7 +407,7 @@ theorem toStr_eq (v : Bits) : toStr v = .ok (Ref.toString v) := by
           · exact hc ⟨by omega, c2⟩)
   rw [h1]
   congr 1
-  unfold Ref.toString
+  unfold Ref.toStringWith
   apply List.ext_getElem (by simp [h2])
   intro j hj1 hj2
   have hj : j < v.length := by omega
@@ -385,6 +420,9 @@ theorem toStr_eq (v : Bits) : toStr v = .ok (Ref.toString v) := by
   rw [List.getD_eq_getElem?_getD, List.getElem?_eq_getElem hidx]
   simp only [Option.getD_some]
   cases v[v.length - 1 - j] <;> simp <;> omega
+
+theorem toStr_eq (v : Bits) : toStr v = .ok (Ref.toString v) := by
+  unfold toStr; rw [toStrWith_eq]; rfl
 
 theorem value_drop_cons (v : Bits) (lo : Nat) (h : lo < v.length) :
     v.drop lo = v.getD lo false :: v.drop (lo + 1) := by
